@@ -68,9 +68,9 @@ Section Top.
   Qed.
   (* a definition without .type behaves as .type = strings *)
   Lemma leaf_untyped h ws a l :
-    get_attr (s_ "type") a = ANone -> strings_dom l = true -> pdom pe ex (Def h ws a) (VList (map VStr l)).
+    get_attr (s_ "type") a = ANone -> pdom pe ex (Def h ws a) (VList (map VStr l)).
   Proof.
-    intros Ty D. destruct (rt_strings pe ex ANone ws l D) as [ws' [A B]].
+    intros Ty. destruct (rt_strings pe ex ANone ws l) as [ws' [A B]].
     cbn [pdom format_obj]. unfold def_as_words. rewrite Ty. cbn [ty_as_words] in A. rewrite A. cbn [bind].
     eexists. split; [reflexivity|]. cbn [extract_obj]. unfold def_from_words. rewrite Ty.
     cbn [ty_from_words] in B. exact B.
